@@ -37,7 +37,7 @@ def run(scn, seed, line_p=0.05, stick=0.5, decisions=None, rpc_timeout=2):
         bcfg['frame_max'] = scn['frame_max']
     rt, br, conn = cconn.new_connection(
         seed, rt_kw=dict(line_p=0.0, stick=stick, decisions=decisions), timeout=1,
-        broker_cfg=bcfg or None)
+        broker_cfg=bcfg or None, heartbeat=scn.get('heartbeat', 0))
     br.strict_close = True
     st = {'chans': {}}
     nack = []
@@ -196,17 +196,21 @@ def run(scn, seed, line_p=0.05, stick=0.5, decisions=None, rpc_timeout=2):
         snaps[c] = ch
     final = coq_list(['(%s, %s)' % (coq_nat(c), csnap(conn, ch)) for c, ch in sorted(snaps.items())])
     inv = rt.inventory()
+    conn_state = conn.current_state
     rt.teardown()
     wire = [(ch, fr) for (_, ch, fr, _) in br.ledger_in[mark:]]
     events_coq = coq_list([
         '{| ce_thread := %s; ce_idx := %s; ce_chan := %s; ce_op := %s; ce_res := %s |}' % (
             coq_nat(i), coq_nat(j), coq_nat(c), cop_coq(op), results[(i, j)])
         for i, ops in enumerate(scn['threads']) for j, (c, op) in enumerate(ops)])
+    from harness.chanrt import STATES
+    socks = sum(1 for s in rt.sockets if s.connected and not s.closed)
     obs = ('{| co_events := %s; co_wire := %s; co_final := %s; co_parse_ok := %s; '
-           'co_violations := %s; co_fired := %s |}' % (
+           'co_violations := %s; co_fired := %s; co_conn := %s; co_inv := (%s, %s, %s) |}' % (
                events_coq, coq_list([wire_coq(ch, fr) for ch, fr in wire]), final,
                coq_bool(br.parse_error is None), coq_nat(len(br.violations)),
-               coq_nat(len(fired))))
+               coq_nat(len(fired)), STATES[conn_state],
+               coq_nat(socks), coq_nat(inv['live_threads']), coq_nat(inv['armed_timers'])))
     info = dict(results={'%d.%d' % k: v for k, v in results.items()},
                 wire=[(ch, fr.name) for ch, fr in wire], hang=hang,
                 decisions=list(rt.decisions), violations=list(br.violations),
